@@ -45,6 +45,29 @@ def specMetrics (hist : List PStep) : Metrics :=
 
 def step (_ : Unit) (j : Json) : Except String (Unit × Drv.Out) := do
   let op ← strF j "op"
+  if op == "promrace" then
+    -- REQ x, then CLOSE x and CLOSED x at the same moment, many times within one session: the model closes the
+    -- subscription once whichever comes first (`Prom.step` for CLOSE / CLOSED of an id that is not open is a no-op),
+    -- so at the quiescent point after the trials the gauges read 1 connection, 0 subscriptions, and 0 / 0 at the end
+    let out ← fld j "out"
+    let num (x : Json) : Int := match x with | .num n => n.mantissa / (10 : Int) ^ n.exponent | _ => 0
+    let mut o : Drv.Out := { nontrivial := true }
+    o := o.tag "mode.close-closed-race"
+    if fldD j "race" == .bool true then
+      o := o.mon "promReality" "data-race" "the Go race detector reported a data race on the middleware's shared state in this run"
+    if fldD out "stalled" == .bool true then
+      o := o.mon "promReality" "prom.stalled" "the middleware stopped passing messages during the CLOSE / CLOSED scenario"
+    let midReq := num (fldD (fldD out "mid") "req")
+    let midConn := num (fldD (fldD out "mid") "conn")
+    let endReq := num (fldD (fldD out "end") "req")
+    let endConn := num (fldD (fldD out "end") "conn")
+    if midReq != 0 || midConn != 1 then
+      o := o.diff s!"CLOSE x and CLOSED x at the same moment ({(fldD j "trials").compress} trials): gauges connection={midConn} subscriptions={midReq}, model 1 / 0"
+    if midReq != 0 then
+      o := o.mon "promReality" "prom.req" s!"after {(fldD j "trials").compress} subscriptions each closed by a client CLOSE and a server CLOSED at the same moment, the subscription gauge reads {midReq} with no subscription open"
+    if endReq != 0 || endConn != 0 then
+      o := o.mon "promReality" (if endReq != 0 then "prom.req" else "prom.conn") s!"after the session ended the gauges read connection={endConn} subscriptions={endReq}"
+    return ((), o)
   if op != "prom" then throw s!"unknown op {op}"
   let mode ← strF j "mode"
   let evs ← asArr (← fld j "events")
